@@ -263,6 +263,7 @@ func c06Loopback(c *Ctx) {
 				return
 			}
 			defer f.fm.Close()
+			refusedPort := freePort("127.0.0.1")
 			// the farm answers every well-formed request with a valid reply for its function code
 			var cur struct {
 				sync.Mutex
@@ -300,6 +301,9 @@ func c06Loopback(c *Ctx) {
 				if r.Chance(0.25) {
 					dv.proto = "tcp"
 				}
+				if i%11 == 5 {
+					dv.state = "refusing" // configured with a usable address at which nobody listens: the request is refused - and goes nowhere else
+				}
 				effTCP := dv.proto == "tcp"
 				k := r.Pick(3)
 				bindKind := []string{"127.0.0.1:0", "127.0.0.2:0", "fixed"}[r.Pick(3)]
@@ -332,7 +336,10 @@ func c06Loopback(c *Ctx) {
 					cfg.Devices = append(cfg.Devices, DevCfg{ID: serial, Addr: "127.0.0.1:0", Proto: dv.proto, NewDevice: dv.newd})
 				case "valid":
 					cfg.Devices = append(cfg.Devices, DevCfg{ID: serial, Addr: f.udp[k].Addr, Proto: dv.proto, NewDevice: dv.newd}) // same port number for UDP and TCP
+				case "refusing":
+					cfg.Devices = append(cfg.Devices, DevCfg{ID: serial, Addr: fmt.Sprintf("127.0.0.1:%d", refusedPort), Proto: dv.proto, NewDevice: dv.newd})
 				}
+				cfg.Debug = i%13 == 4 // now and then a client that logs every message
 				op := ops[r.Pick(len(ops))]
 				a, p := r.Args(op)
 				aux := toAux(p)
@@ -399,7 +406,11 @@ func c06Loopback(c *Ctx) {
 				}
 				elapsed := time.Since(start)
 				// quiescence: wait (bounded) until the request has been logged, then a little longer for stray duplicates
-				for k := 0; k < 500 && total() == recvBefore; k++ {
+				waitArrival := 500
+				if dv.state == "refusing" && !op.Discovery {
+					waitArrival = 10 // nothing is expected to arrive anywhere
+				}
+				for k := 0; k < waitArrival && total() == recvBefore; k++ {
 					time.Sleep(2 * time.Millisecond)
 				}
 				time.Sleep(3 * time.Millisecond)
@@ -418,6 +429,24 @@ func c06Loopback(c *Ctx) {
 					wantEP = f.udp[k]
 				default:
 					wantEP = f.bcast
+				}
+				if dv.state == "refusing" && !op.Discovery {
+					c.Res.Eval(1)
+					c.Res.DistinctKey("loopback", op.Name, dv.state, dv.proto, dv.newd, bindKind)
+					c.Res.Count("loopback:route:refusing-endpoint", 1)
+					n := 0
+					desc := []string{}
+					for _, e := range events {
+						if e.Kind == "recv" {
+							n++
+							desc = append(desc, fmt.Sprintf("%s endpoint %s from %s (%d bytes)", e.Proto, f.fm.Endpoints[e.Endpoint].Addr, e.Src, len(e.Data)))
+						}
+					}
+					if n > 0 {
+						c.Res.Violate("C06:loopback:refusing:"+map[bool]string{true: "tcp", false: "udp"}[effTCP]+":elsewhere", fmt.Sprintf("%s for a controller configured at 127.0.0.1:%d (nobody listens there: the request is refused) arrived somewhere else: %v", op.Name, refusedPort, desc),
+							map[string]any{"layer": "loopback", "op": op.Name, "config": fmt.Sprintf("%+v", cfg), "arrivals": desc, "err": out.Err, "earlier_calls_on_this_client": hist}, caseNo)
+					}
+					continue
 				}
 				wantSerial := serial
 				if op.Discovery {
